@@ -1295,3 +1295,64 @@ Proof.
       nia.
     + rewrite <- Z.mul_assoc. f_equal. rewrite <- Z.pow_add_r by lia. f_equal. lia.
 Qed.
+
+(* ---------- request level: status assignment of req_commit for completed GET requests ---------- *)
+Fixpoint first_err (errs : list Z) : Z :=
+  match errs with [] => NC_NOERR | e :: r => if e =? NC_NOERR then first_err r else e end.
+
+Lemma commit_get_own : forall errs st,
+  commit_get GateOwn st errs = ((if st =? NC_NOERR then first_err errs else st), errs).
+Proof.
+  induction errs as [| e r IH]; intros st; cbn [commit_get gate_step first_err].
+  - destruct (st =? NC_NOERR) eqn:E; [apply Z.eqb_eq in E; subst |]; reflexivity.
+  - destruct (e =? NC_NOERR) eqn:Ee.
+    + rewrite IH. apply Z.eqb_eq in Ee. subst e. reflexivity.
+    + change (NC_NOERR =? NC_NOERR) with true. cbv iota. rewrite IH.
+      destruct (st =? NC_NOERR) eqn:Es; [rewrite Ee | rewrite Es]; reflexivity.
+Qed.
+
+(* every batch: the status word of request i is the conversion status of request i, the return value
+   of wait/wait_all is the first error in queue order (uses the gating AS TRANSLATED from ncmpio_wait.c) *)
+Theorem req_status_local : forall errs,
+  commit_get req_gate NC_NOERR errs = (first_err errs, errs).
+Proof. intros. unfold req_gate. rewrite commit_get_own. reflexivity. Qed.
+
+Theorem req_status_independent : forall errs1 errs2 i,
+  nth_error errs1 i = nth_error errs2 i ->
+  nth_error (snd (commit_get req_gate NC_NOERR errs1)) i =
+  nth_error (snd (commit_get req_gate NC_NOERR errs2)) i.
+Proof. intros. rewrite !req_status_local. exact H. Qed.
+
+(* the variant that gates the status word on the function-wide first error loses the status of every
+   later request: 2-request witness *)
+Theorem req_status_global_gate_refuted :
+  ~ (forall errs1 errs2 i, nth_error errs1 i = nth_error errs2 i ->
+       nth_error (snd (commit_get GateGlobal NC_NOERR errs1)) i =
+       nth_error (snd (commit_get GateGlobal NC_NOERR errs2)) i).
+Proof.
+  intros H. specialize (H [NC_ERANGE; NC_ERANGE] [NC_NOERR; NC_ERANGE] 1%nat eq_refl).
+  vm_compute in H. discriminate H.
+Qed.
+Example ex_global_gate_drops_status :
+  commit_get GateGlobal NC_NOERR [NC_ERANGE; NC_ERANGE] = (NC_ERANGE, [NC_ERANGE; NC_NOERR]) /\
+  commit_get req_gate NC_NOERR [NC_ERANGE; NC_NOERR; NC_ERANGE] = (NC_ERANGE, [NC_ERANGE; NC_NOERR; NC_ERANGE]).
+Proof. split; vm_compute; reflexivity. Qed.
+
+(* a batch of nonblocking requests: what is reported for request i is a function of request i alone *)
+Definition nb_req1 (fmt : Z) (r : nbreq) : Z * Z * list (Z * Z) :=
+  let c := nb_conv fmt r in
+  if nb_is_put r then (fst c, NC_NOERR, snd c) else (NC_NOERR, fst c, snd c).
+
+Lemma nb_assign_local : forall fmt reqs,
+  nb_assign reqs (map (nb_conv fmt) reqs) (nb_geterrs fmt reqs) = map (nb_req1 fmt) reqs.
+Proof.
+  intros fmt. induction reqs as [| r rs IH]; [reflexivity|].
+  unfold nb_geterrs in *. cbn [map nb_assign filter]. unfold nb_req1 at 1.
+  destruct (nb_is_put r) eqn:E; cbn [negb map]; rewrite IH; reflexivity.
+Qed.
+
+Theorem nb_model_local : forall fmt reqs,
+  nb_model fmt reqs = (first_err (nb_geterrs fmt reqs), map (nb_req1 fmt) reqs).
+Proof.
+  intros. unfold nb_model. rewrite req_status_local. rewrite nb_assign_local. reflexivity.
+Qed.
